@@ -77,7 +77,9 @@ def apply_overlay(tree, group, tier):
         src_text = src_text[: m.end()] + text + src_text[m.end():]
         with open(path, "w") as f:
             f.write(src_text)
-    for rel, modname, src in list(group["overlay"]) + list(group.get("overlay_extra", [])):
+    for item in list(group["overlay"]) + list(group.get("overlay_extra", [])):
+        rel, modname, src = item[:3]
+        vis = item[3] if len(item) > 3 else "pub(crate)"
         crate_src = os.path.join(tree, os.path.dirname(rel))
         dst = os.path.join(crate_src, "verif_%s.rs" % modname)
         # modules nested in non-mod files resolve #[path] relative to <file stem>/ ; use absolute
@@ -89,7 +91,7 @@ def apply_overlay(tree, group, tier):
             f.write(htext)
         with open(os.path.join(tree, rel), "a") as f:
             f.write(
-                '\n#[cfg(kani)]\n#[path = "%s"]\npub(crate) mod verif_%s;\n' % (dst, modname)
+                '\n#[cfg(kani)]\n#[path = "%s"]\n%s mod verif_%s;\n' % (dst, vis, modname)
             )
     params = dict(group.get("params", {}).get("quick", {}))
     if tier == "thorough":
